@@ -23,6 +23,8 @@ PROPS = {
             'technique': 'Verus: derived table denotations == reference table cell by cell (3x256) + automaton postcondition on the real ScancodeSet2::advance_state + sequence lemmas + verified clients'},
     'C02': {'lemmas': ['c02'], 'support_lemmas': ['c07'], 'cellgens': ['scancode_ref'], 'assume': BASE + [A_PRIV, A_REF_SC], 'kani': [], 'design': 'DESIGN.md section 3, C02',
             'technique': 'Verus: derived table denotations == reference table cell by cell (3x256) + automaton postcondition and invariant on the real ScancodeSet1::advance_state + sequence lemmas + verified clients'},
+    'C03': {'lemmas': [], 'support_lemmas': ['ldefs'], 'cellgens': ['c03_cells'], 'assume': BASE + [A_CHAR, A_PRED, A_KANI, A_REF_LAY], 'kani': ['char_from_u8_is_cast', 'predicates_equal_copies'], 'design': 'DESIGN.md section 3, C03',
+            'technique': 'Verus lemmas per (layout, key, level) against reference tables of the national layouts, for every modifier state and mode selecting the level, over the derived layout denotations'},
     'C04': {'lemmas': ['c04'], 'assume': BASE + [A_PRIV], 'kani': [], 'design': 'DESIGN.md section 3, C04',
             'technique': 'Verus postcondition mods\' == mods_step(mods, ev) on the real process_keyevent + induction lemma over Seq<KeyEvent> + verified clients'},
     'C05': {'lemmas': ['c05'], 'assume': BASE + [A_COUNT, A_KANI], 'kani': ['count_ones_is_bit_sum'], 'design': 'DESIGN.md section 3, C05',
